@@ -29,6 +29,7 @@ func runC02(c *Ctx) {
 	ruleU7(c, "U7")
 	r.Rule("U8", "the assignment primitives write value and presentation attributes only", 2)
 	ruleU8(c, "U8")
+	ruleU9(c, "U9")
 	ruleL1(c, "L1", 20)
 	ruleR1(c, "R1", nil)
 }
@@ -49,6 +50,7 @@ func runC07(c *Ctx) {
 	ruleU8(c, "P8")
 	r.Rule("P7", "string-tagged keys are never parsed as numbers on their way into a path (delete addresses entries by it)", 1)
 	ruleK5(c, "P7")
+	ruleBindCopies(c, "P9")
 	// operators inside the right-hand side of an update must not write the document
 	r.Rule("P5", "pure operators (the value side of an update) do not write nodes of the document", 80)
 	ruleX1(c, "P5")
